@@ -364,7 +364,17 @@ def open_source(spec, scratch=None):
         warnings.simplefilter("ignore")
         if spec["kind"] == "file":
             path = os.path.join(MESHFILES, spec["path"])
-            g = ux.open_grid(path, use_dual=bool(spec.get("use_dual", False)))
+            if spec.get("twice"):
+                # the caller keeps ONE opened dataset and builds grids from it more than once
+                # (e.g. the dual first, then the mesh under test)
+                ds0 = xr.open_dataset(path)
+                try:
+                    ux.Grid.from_dataset(ds0, use_dual=not bool(spec.get("use_dual", False)))
+                except Exception:
+                    ux.Grid.from_dataset(ds0)
+                g = ux.Grid.from_dataset(ds0, use_dual=bool(spec.get("use_dual", False)))
+            else:
+                g = ux.open_grid(path, use_dual=bool(spec.get("use_dual", False)))
             g = derive_provenance(g, spec)
             return Source(spec, g, aligned_model(g), {"path": path}, None)
         mesh = M.build(spec["mesh"], spec.get("params"), spec.get("variant", 0), spec.get("jitter", 0.0))
@@ -386,6 +396,8 @@ def open_source(spec, scratch=None):
         elif prov == "ugrid_mem":
             ds = ugrid_dataset(mesh, dialect)
             inputs = {"dataset": ds}
+            if spec.get("twice"):
+                ux.Grid.from_dataset(ds)
             g = ux.Grid.from_dataset(ds)
         elif prov == "ugrid_mem_chunked":
             # the caller's dataset is dask-backed before the grid is built
